@@ -599,6 +599,36 @@ fn op_schema_build(cmd: &J) -> Result<J, String> {
 				let mut cfg = SerializerConfig::new(&schema);
 				let _ = serde_avro_fast::to_datum(&P::Unit, Vec::new(), &mut cfg);
 				let _ = serde_avro_fast::to_datum(&P::I64(1), Vec::new(), &mut cfg);
+				// records: struct presentations over the schema's own field names in several orders, also with a name given twice
+				// (a record whose schema itself repeats a field name can be built and frozen)
+				for node in graph.nodes() {
+					if let serde_avro_fast::schema::RegularType::Record(rec) = &node.type_ {
+						let names: Vec<&'static str> = rec.fields.iter().map(|f| &*Box::leak(f.name.clone().into_boxed_str())).collect();
+						if names.is_empty() || names.len() > 6 {
+							continue;
+						}
+						let mut orders: Vec<Vec<&'static str>> = vec![names.clone(), names.iter().rev().copied().collect()];
+						let mut dup = vec![names[0]];
+						dup.extend(names.iter().copied());
+						orders.push(dup);
+						let mut dup2: Vec<&'static str> = names.iter().copied().collect();
+						dup2.insert(1.min(dup2.len()), names[names.len() - 1]);
+						orders.push(dup2);
+						let mut dedup: Vec<&'static str> = Vec::new();
+						for n in &names {
+							if !dedup.contains(n) {
+								dedup.push(*n);
+							}
+						}
+						orders.push(dedup);
+						for o in orders {
+							for val in [P::I64(1), P::Unit] {
+								let p = P::Struct("Probe", o.len(), o.iter().map(|n| (*n, val.clone())).collect());
+								let _ = serde_avro_fast::to_datum(&p, Vec::new(), &mut cfg);
+							}
+						}
+					}
+				}
 				let mut probes = 0;
 				for input in [&[][..], &[0][..], &[2, 2, 2, 2, 2, 2, 2, 2][..], &[1, 1, 1, 1][..], &[0, 0, 0, 0, 0, 0][..], &[4, 0, 2, 0, 2, 0, 0][..]] {
 					let mut dcfg = serde_avro_fast::de::DeserializerConfig::new(&schema);
